@@ -547,6 +547,12 @@ private:
                     more_ = false;
                     return;
                 }
+                if (!is_json_number(data.data(), data.size()))
+                {
+                    ec = ubjson_errc::invalid_high_precision_number;
+                    more_ = false;
+                    return;
+                }
                 if (jsoncons::is_base10(data.data(), data.size()))
                 {
                     visitor.string_value(jsoncons::string_view(reinterpret_cast<const char*>(data.data()), data.size()), 
@@ -784,6 +790,64 @@ private:
             more_ = false;
         }
         state_stack_.pop_back();
+    }
+
+    // number = [ minus ] int [ frac ] [ exp ] (RFC 8259), as the UBJSON specification requires for high-precision numbers
+    static bool is_json_number(const uint8_t* s, std::size_t length)
+    {
+        const uint8_t* end = s + length;
+        if (s < end && *s == '-')
+        {
+            ++s;
+        }
+        if (s == end)
+        {
+            return false;
+        }
+        if (*s == '0')
+        {
+            ++s;
+        }
+        else if (*s >= '1' && *s <= '9')
+        {
+            while (s < end && *s >= '0' && *s <= '9')
+            {
+                ++s;
+            }
+        }
+        else
+        {
+            return false;
+        }
+        if (s < end && *s == '.')
+        {
+            ++s;
+            if (s == end || *s < '0' || *s > '9')
+            {
+                return false;
+            }
+            while (s < end && *s >= '0' && *s <= '9')
+            {
+                ++s;
+            }
+        }
+        if (s < end && (*s == 'e' || *s == 'E'))
+        {
+            ++s;
+            if (s < end && (*s == '+' || *s == '-'))
+            {
+                ++s;
+            }
+            if (s == end || *s < '0' || *s > '9')
+            {
+                return false;
+            }
+            while (s < end && *s >= '0' && *s <= '9')
+            {
+                ++s;
+            }
+        }
+        return s == end;
     }
 
     std::size_t get_length(std::error_code& ec)
